@@ -177,8 +177,9 @@ def spec_exitExpressionvar(self, ctx):
         value = _literal(ctx.nonnumeric())
     if isinstance(value, sym.Expr):
         final_value = value                                        # C04: a symbolic initialiser is kept
-    elif vartype in ("int", "float") and IS_COMPLEXKIND(value):
-        raise TypeError("Var {} = {} is not of declared type {}".format(name, value, vartype))   # C11: literal or computed, Python or NumPy complex
+    elif vartype == "array" or (vartype in ("int", "float") and IS_COMPLEXKIND(value)):
+        # C19/C05: `array` is not a scalar type (np.ndarray(n) is uninitialised memory); C11: literal or computed, Python or NumPy complex
+        raise TypeError("Var {} = {} is not of declared type {}".format(name, value, vartype))
     else:
         try:
             final_value = PYTHON_TYPES[vartype](value)             # C05: value of the declared type
@@ -335,6 +336,8 @@ def spec_exitForloop(self, ctx):
         if ctx.NAME():
             # C06/C11: bound to the value converted to the declared type; a value the conversion changes or refuses is not of the loop type
             try:
+                if ctx.vartype().getText() == "array":
+                    raise ValueError                                # C19: `array` is no loop type (np.ndarray(v) is uninitialised memory)
                 new_var = PYTHON_TYPES[ctx.vartype().getText()](var)
                 if new_var != var:
                     raise ValueError
